@@ -1,5 +1,38 @@
 import Tetro.Model.Timer
 import Tetro.Spec.Timer
+/-
+C12 – the timer counts, overflows and reloads as the DMG timer.
+
+Code model `Model.Timer` (timer.go after commit 73224bd, function for function) against the
+documentation-shaped `Spec.Timer` (continuous falling-edge detector, relative two-cycle reload
+phase, interrupt = "TIMA wrapped in this cycle").
+
+ALPHABET.  The refinement is stated per MACHINE CYCLE: `Option Write` = at most one write to
+DIV/TIMA/TMA/TAC followed by `EndMachineCycle`.  That is everything a guest can do (one bus access
+per machine cycle), and it is forced by the pinned unit tests: `testTIMA` does
+`WriteTAC(enable); Reset()` on a fresh timer with counter bit 3/5/7/9 set and NO tick in between and
+requires TIMA to stay 00, while a continuous detector sees the signal rise at the TAC write and fall
+at the DIV write.  The code therefore detects write-caused edges relative to `lastEdgeSet` (the level
+at the last tick) and tick-caused edges by comparing the level just before/after `counter += 4`.
+With at most one write per cycle this IS the continuous detector (`lastEdgeSet` = level at the
+start of the cycle = level before the write): that equality is the content of `step_ok`.
+For schedules with several writes inside one cycle (only a harness can produce them) the theorems
+below cover DIV/TMA/TAC (`c12_regs_free`, `c12_div`); TIMA and the IRQ are then tied to the code by
+the correspondence run only (and deliberately do not follow the continuous specification).
+
+An overflow caused by a write in cycle k behaves as one detected at the tick ending cycle k
+(`increment(2)` then one decrement at that tick = `increment(1)` at the tick).
+
+Theorems (all without `sorry`; axioms checked by bin/check):
+  c12_refines              observation sequences of Model and Spec agree, every legal start state,
+                           every guest schedule
+  c12_regs_free, c12_div, c12_div_write_clears, c12_div_free_running
+  c12_one_irq, c12_irq_count
+  c12_reload_relative, c12_after_reload_writes
+  c12_rate, c12_rate_events, c12_periods
+  c12_inv_init, c12_inv_after_tick, c12_inv_harness_reset   (which states are legal starts)
+Helper lemmas are `private` (`step_ok` is the simulation step).
+-/
 namespace Tetro.C12
 open Tetro.Timer (Write Obs Call)
 
@@ -25,7 +58,7 @@ def abs (t : Model.Timer.T) : Spec.Timer.St :=
   { sys := t.counter, tac := t.tac, tima := t.tima, tma := t.tma,
     overflowed := decide (t.reloadDelay = 1), reloaded := t.reloading }
 
-theorem edgeSet_eq (t : Model.Timer.T) :
+private theorem edgeSet_eq (t : Model.Timer.T) :
     Model.Timer.edgeSet t = Spec.Timer.signal t.counter t.tac := by
   unfold Model.Timer.edgeSet Model.Timer.counterBitSet Spec.Timer.signal Spec.Timer.selectedBit
   have h : t.tac % 4 = 0 ∨ t.tac % 4 = 1 ∨ t.tac % 4 = 2 ∨ t.tac % 4 = 3 := by omega
@@ -44,7 +77,7 @@ def tickFalls (u : Model.Timer.T) : Bool :=
 /-- TIMA after the reload block -/
 def loadedTima (u : Model.Timer.T) : Nat := if u.reloadDelay = 1 then u.tma else u.tima
 
-theorem reloadStep_advance :
+private theorem reloadStep_advance :
     reloadStep (advance u) =
       { counter := (u.counter + 4) % 65536, tac := u.tac, tima := loadedTima u, tma := u.tma,
         lastEdgeSet := u.lastEdgeSet, reloadDelay := u.reloadDelay - 1,
@@ -58,7 +91,7 @@ theorem reloadStep_advance :
       have h3 : ¬ (u.reloadDelay - 1 = 0) := by omega
       simp [h1, h2, h3]
 
-theorem endCyclePre_eq :
+private theorem endCyclePre_eq :
     endCyclePre u =
       { counter := (u.counter + 4) % 65536, tac := u.tac,
         tima := if tickFalls u then (loadedTima u + 1) % 256 else loadedTima u,
@@ -82,7 +115,7 @@ end tick
 section writes
 open Model.Timer
 
-theorem checkFallingEdge_eq (x : Model.Timer.T) :
+private theorem checkFallingEdge_eq (x : Model.Timer.T) :
     checkFallingEdge x =
       { counter := x.counter, tac := x.tac,
         tima := if x.lastEdgeSet && !Spec.Timer.signal x.counter x.tac then (x.tima + 1) % 256 else x.tima,
@@ -264,7 +297,7 @@ private theorem step_tac (t : Model.Timer.T) (h : MInv t) (v : Nat) (hw : v < 25
     rcases Bool.eq_false_or_eq_true (Spec.Timer.signal ((c + 4) % 65536) v) with h2 | h2 <;>
     simp [h0, h1', h2, w3', w4', beq_dec] <;> (repeat' split) <;> (try simp_all) <;> (try omega)
 
-theorem step_ok (t : Model.Timer.T) (h : MInv t) (w : Option Write) (hw : ByteW w) : StepOK t w := by
+private theorem step_ok (t : Model.Timer.T) (h : MInv t) (w : Option Write) (hw : ByteW w) : StepOK t w := by
   cases w with
   | none => exact step_none t h
   | some w =>
@@ -281,7 +314,7 @@ end step
 def Bytes (ws : List (Option Write)) : Prop := ∀ w ∈ ws, ByteW w
 
 /-- the simulation relation is preserved along any guest schedule -/
-theorem run_ok (t : Model.Timer.T) (h : MInv t) (ws : List (Option Write)) (hws : Bytes ws) :
+private theorem run_ok (t : Model.Timer.T) (h : MInv t) (ws : List (Option Write)) (hws : Bytes ws) :
     MInv (Model.Timer.run t ws) ∧ abs (Model.Timer.run t ws) = Spec.Timer.run (abs t) ws := by
   induction ws generalizing t with
   | nil => exact ⟨h, rfl⟩
@@ -306,13 +339,13 @@ theorem c12_refines (t : Model.Timer.T) (h : MInv t) (ws : List (Option Write)) 
     rw [ho, ih _ hi (fun x hx => hws x (List.mem_cons_of_mem _ hx)), ha]
 
 /-- the power-on state of `timer.New()` with the counter set to any value is a legal start -/
-theorem minv_init (c : Nat) (hc : c < 65536) : MInv (Model.Timer.setCounter Model.Timer.init c) := by
+theorem c12_inv_init (c : Nat) (hc : c < 65536) : MInv (Model.Timer.setCounter Model.Timer.init c) := by
   refine ⟨hc, ?_, ?_, ?_, ?_, rfl, ?_, ?_⟩ <;>
     simp [Model.Timer.setCounter, Model.Timer.init, Model.Timer.edgeSet]
 
 /-- `EndMachineCycle` re-establishes the invariant from any mid-cycle state with in-range fields
     in which no write-caused overflow is pending (`reloadDelay ≤ 1`) -/
-theorem minv_endCycle (u : Model.Timer.T) (_h1 : u.counter < 65536) (h2 : u.tac < 256)
+theorem c12_inv_after_tick (u : Model.Timer.T) (_h1 : u.counter < 65536) (h2 : u.tac < 256)
     (h3 : u.tima < 256) (h4 : u.tma < 256) (h5 : u.reloadDelay ≤ 1) :
     MInv (Model.Timer.endCycle u) := by
   simp only [Model.Timer.endCycle, endCyclePre_eq, loadedTima]
@@ -322,15 +355,15 @@ theorem minv_endCycle (u : Model.Timer.T) (_h1 : u.counter < 65536) (h2 : u.tac 
   all_goals (repeat' split) <;> (try simp_all) <;> (try omega)
 
 /-- the start states of the correspondence harness (`reset c tima tma tac`) are legal starts -/
-theorem minv_harness_reset (c a m k : Nat) (hc : c < 65536) (ha : a < 256) (hm : m < 256) (hk : k < 256) :
+theorem c12_inv_harness_reset (c a m k : Nat) (hc : c < 65536) (ha : a < 256) (hm : m < 256) (hk : k < 256) :
     MInv (Model.Timer.endCycle (Model.Timer.setCounter
       (Model.Timer.writeTMA (Model.Timer.writeTIMA (Model.Timer.writeTAC Model.Timer.init k) a) m) c)) := by
-  apply minv_endCycle <;>
+  apply c12_inv_after_tick <;>
     simp [Model.Timer.setCounter, Model.Timer.writeTMA, Model.Timer.writeTIMA, Model.Timer.writeTAC,
       Model.Timer.init, checkFallingEdge_eq] <;> omega
 
 /-- non-vacuity of `c12_refines`: the fresh timer, a schedule with an overflow, a reload and writes -/
-example : MInv Model.Timer.init := minv_init 0xabcc (by decide)
+example : MInv Model.Timer.init := c12_inv_init 0xabcc (by decide)
 example : Bytes [some (.tac 5), some (.tima 0xff), none, some .div, some (.tma 7), none] := by
   intro w hw; simp at hw; rcases hw with rfl | rfl | rfl | rfl | rfl | rfl <;> simp [ByteW]
 example : (Model.Timer.observe Model.Timer.init
@@ -514,5 +547,170 @@ theorem c12_after_reload_writes (t : Model.Timer.T) (h : MInv t) (hr : t.reloadi
       Spec.Timer.reloads, Spec.Timer.cancels, Spec.Timer.timaMid, Spec.Timer.writeEdge,
       Spec.Timer.countEdge, Spec.Timer.timaAfterWrite, Spec.Timer.sysAfterWrite,
       Spec.Timer.tacAfterWrite, hov, hr', falls_self, Spec.Timer.bump] <;> rfl
+
+/-- non-vacuity of the three theorems above: a legal state one tick before an overflow; the request
+    comes with the wrap, a DIV write in the 00 cycle does not disturb the reload from TMA, and the
+    cycle after that is a "just reloaded" cycle with no reload pending -/
+def exBeforeOverflow : Model.Timer.T :=
+  { Model.Timer.init with counter := 0x000c, tac := 5, tima := 0xff, tma := 0x42, lastEdgeSet := true }
+
+example : MInv exBeforeOverflow :=
+  ⟨by decide, by decide, by decide, by decide, by decide, rfl, by decide, by decide⟩
+example : (Model.Timer.cycleObs exBeforeOverflow none).irq = true ∧
+    (Model.Timer.cycleObs exBeforeOverflow none).tima = 0 ∧
+    Spec.Timer.cancels (abs (Model.Timer.cycle exBeforeOverflow none)) (some .div) = false ∧
+    (Model.Timer.cycleObs (Model.Timer.cycle exBeforeOverflow none) (some .div)).tima = 0x42 ∧
+    (Model.Timer.cycleObs (Model.Timer.cycle exBeforeOverflow none) (some (.tima 0x77))).tima = 0x77 := by
+  decide
+example : (Model.Timer.run exBeforeOverflow [none, none]).reloading = true ∧
+    (Model.Timer.run exBeforeOverflow [none, none]).reloadDelay = 0 ∧
+    (Model.Timer.cycleObs (Model.Timer.run exBeforeOverflow [none, none]) (some (.tima 0x77))).tima = 0x42 ∧
+    (Model.Timer.cycleObs (Model.Timer.run exBeforeOverflow [none, none]) (some (.tma 0x77))).tima = 0x77 := by
+  decide
+
+/-! ### rate -/
+
+private theorem signal_dm (c tac : Nat) :
+    Spec.Timer.signal c tac =
+      ((tac / 4 % 2 == 1) &&
+        (match tac % 4 with
+         | 0 => c / 512 % 2 == 1
+         | 1 => c / 8 % 2 == 1
+         | 2 => c / 32 % 2 == 1
+         | _ => c / 128 % 2 == 1)) := by
+  have := edgeSet_eq ⟨c, tac, 0, 0, false, 0, false, false⟩
+  simp only [Model.Timer.edgeSet, Model.Timer.counterBitSet] at this
+  exact this.symm
+
+private theorem edges_rec (c tac n : Nat) (hen : tac / 4 % 2 = 1) :
+    Spec.Timer.fallingEdges c tac (n + 1) =
+      (if Spec.Timer.falls (Spec.Timer.signal c tac) (Spec.Timer.signal ((c + 4) % 65536) tac) then 1 else 0)
+        + Spec.Timer.fallingEdges ((c + 4) % 65536) tac n := by
+  have h : tac % 4 = 0 ∨ tac % 4 = 1 ∨ tac % 4 = 2 ∨ tac % 4 = 3 := by omega
+  rcases h with h | h | h | h <;>
+    simp [Spec.Timer.fallingEdges, Spec.Timer.period, Spec.Timer.selectedBit, Spec.Timer.falls,
+      signal_dm, h, hen] <;>
+    split <;> omega
+
+private theorem edges_zero (c tac : Nat) : Spec.Timer.fallingEdges c tac 0 = 0 := by
+  have h : tac % 4 = 0 ∨ tac % 4 = 1 ∨ tac % 4 = 2 ∨ tac % 4 = 3 := by omega
+  rcases h with h | h | h | h <;>
+    simp [Spec.Timer.fallingEdges, Spec.Timer.period, Spec.Timer.selectedBit, h] <;> omega
+
+private theorem spec_rate (n : Nat) : ∀ (s : Spec.Timer.St), s.overflowed = false → s.tac / 4 % 2 = 1 →
+    s.tima + Spec.Timer.fallingEdges s.sys s.tac n < 256 →
+    (Spec.Timer.run s (List.replicate n none)).tima = s.tima + Spec.Timer.fallingEdges s.sys s.tac n ∧
+    (∀ o ∈ Spec.Timer.observe s (List.replicate n none), o.irq = false) := by
+  induction n with
+  | zero => intro s _ _ _; simp [Spec.Timer.run, Spec.Timer.observe, edges_zero]
+  | succ n ih =>
+    intro s hov hen hno
+    rw [edges_rec s.sys s.tac n hen] at hno ⊢
+    have hwe : Spec.Timer.writeEdge s none = false := by simp [Spec.Timer.writeEdge, Spec.Timer.sysAfterWrite,
+      Spec.Timer.tacAfterWrite, falls_self]
+    have hce : Spec.Timer.countEdge s none =
+        Spec.Timer.falls (Spec.Timer.signal s.sys s.tac) (Spec.Timer.signal ((s.sys + 4) % 65536) s.tac) := by
+      simp [Spec.Timer.countEdge, Spec.Timer.sysAfterWrite, Spec.Timer.tacAfterWrite, Spec.Timer.sysNext]
+    have hrl : Spec.Timer.reloads s none = false := by simp [Spec.Timer.reloads, hov]
+    have htl : Spec.Timer.timaLoaded s none = s.tima := by
+      simp [Spec.Timer.timaLoaded, hrl, Spec.Timer.timaMid, hwe, Spec.Timer.bump, Spec.Timer.timaAfterWrite]
+    have hsys : (Spec.Timer.cycle s none).sys = (s.sys + 4) % 65536 := by
+      simp [Spec.Timer.cycle, Spec.Timer.sysAfterWrite, Spec.Timer.sysNext]
+    have htac : (Spec.Timer.cycle s none).tac = s.tac := by simp [Spec.Timer.cycle, Spec.Timer.tacAfterWrite]
+    have htima : (Spec.Timer.cycle s none).tima = Spec.Timer.bump (Spec.Timer.countEdge s none) s.tima := by
+      simp [Spec.Timer.cycle, Spec.Timer.timaEnd, htl]
+    have hovf : Spec.Timer.overflows s none = false := by
+      simp only [Spec.Timer.overflows, hwe, htl, hce, Bool.false_and, Bool.false_or]
+      cases hf : Spec.Timer.falls (Spec.Timer.signal s.sys s.tac) (Spec.Timer.signal ((s.sys + 4) % 65536) s.tac)
+      · simp
+      · simp only [hf, if_true] at hno
+        simp; omega
+    have hov' : (Spec.Timer.cycle s none).overflowed = false := by simp [Spec.Timer.cycle, hovf]
+    have hstep : (Spec.Timer.cycle s none).tima =
+        s.tima + (if Spec.Timer.falls (Spec.Timer.signal s.sys s.tac)
+          (Spec.Timer.signal ((s.sys + 4) % 65536) s.tac) = true then 1 else 0) := by
+      rw [htima, hce]
+      cases hf : Spec.Timer.falls (Spec.Timer.signal s.sys s.tac) (Spec.Timer.signal ((s.sys + 4) % 65536) s.tac)
+      · simp [Spec.Timer.bump]
+      · simp only [hf, if_true] at hno
+        simp [Spec.Timer.bump]; omega
+    have := ih (Spec.Timer.cycle s none) hov' (by rw [htac]; exact hen)
+      (by rw [hsys, htac, hstep]; omega)
+    obtain ⟨i1, i2⟩ := this
+    rw [hsys, htac, hstep] at i1
+    refine ⟨?_, ?_⟩
+    · simp only [List.replicate_succ, Spec.Timer.run, List.foldl_cons] at i1 ⊢
+      rw [i1]; omega
+    · intro o ho
+      simp only [List.replicate_succ, Spec.Timer.observe, List.mem_cons] at ho
+      rcases ho with rfl | ho
+      · simp [Spec.Timer.cycleObs, hovf]
+      · exact i2 o ho
+
+/-- C12 (rate, closed form).  Timer enabled, no reload pending, no writes: as long as TIMA does not
+    overflow, after `n` machine cycles TIMA has advanced by exactly the number of falling edges of
+    the selected counter bit, `⌊(counter mod P + 4n) / P⌋` with `P` = 1024/16/64/256 clocks for TAC
+    = 00/01/10/11 (whatever the counter phase, also across the 2^16 wrap), and no interrupt is
+    requested in those cycles. -/
+theorem c12_rate (t : Model.Timer.T) (h : MInv t) (hen : t.tac / 4 % 2 = 1) (hd : t.reloadDelay = 0)
+    (n : Nat) (hno : t.tima + Spec.Timer.fallingEdges t.counter t.tac n < 256) :
+    Model.Timer.readTIMA (Model.Timer.run t (List.replicate n none)) =
+      t.tima + Spec.Timer.fallingEdges t.counter t.tac n ∧
+    (∀ o ∈ Model.Timer.observe t (List.replicate n none), o.irq = false) := by
+  have hb : Bytes (List.replicate n (none : Option Write)) := by
+    intro w hw; rw [(List.mem_replicate.mp hw).2]; trivial
+  obtain ⟨_, ha⟩ := run_ok t h _ hb
+  have hs := spec_rate n (abs t) (by simp [abs, hd]) hen hno
+  rw [c12_refines t h _ hb]
+  refine ⟨?_, hs.2⟩
+  have := congrArg Spec.Timer.St.tima ha
+  simp only [abs] at this hs
+  rw [Model.Timer.readTIMA, this]
+  exact hs.1
+
+/-- the period constants of the closed form -/
+theorem c12_periods :
+    Spec.Timer.period 0 = 1024 ∧ Spec.Timer.period 1 = 16 ∧ Spec.Timer.period 2 = 64 ∧
+    Spec.Timer.period 3 = 256 ∧ ∀ tac, Spec.Timer.period tac = Spec.Timer.period (tac % 4) := by
+  refine ⟨by decide, by decide, by decide, by decide, ?_⟩
+  intro tac
+  simp [Spec.Timer.period, Spec.Timer.selectedBit]
+
+/-- the guard of the `increment(1)` call in `EndMachineCycle`, literally as the code evaluates it:
+    `edgeSetBefore && !edgeSet` with `edgeSet` read after `counter += 4` and the reload block -/
+def codeTickIncrements (t : Model.Timer.T) : Bool :=
+  Model.Timer.edgeSet t && !Model.Timer.edgeSet (Model.Timer.reloadStep (Model.Timer.advance t))
+
+private theorem codeTick_eq (t : Model.Timer.T) : codeTickIncrements t = tickFalls t := by
+  unfold codeTickIncrements tickFalls
+  rw [reloadStep_advance]
+  simp only [edgeSet_eq]
+
+/-- number of times `EndMachineCycle` takes its `increment(1)` branch in `n` consecutive ticks -/
+def incEvents (t : Model.Timer.T) : Nat → Nat
+  | 0 => 0
+  | n + 1 => (if codeTickIncrements t then 1 else 0) + incEvents (Model.Timer.endCycle t) n
+
+/-- C12 (rate, events).  Timer enabled, no writes, ANY TIMA/TMA and reload phase (overflows
+    allowed): in `n` consecutive ticks the code increments TIMA exactly
+    `⌊(counter mod P + 4n) / P⌋` times – once per falling edge of the selected bit. -/
+theorem c12_rate_events (t : Model.Timer.T) (hen : t.tac / 4 % 2 = 1) (n : Nat) :
+    incEvents t n = Spec.Timer.fallingEdges t.counter t.tac n := by
+  induction n generalizing t with
+  | zero => simp [incEvents, edges_zero]
+  | succ n ih =>
+    have hc : (Model.Timer.endCycle t).counter = (t.counter + 4) % 65536 := by
+      simp [Model.Timer.endCycle, endCyclePre_eq]
+    have htac : (Model.Timer.endCycle t).tac = t.tac := by simp [Model.Timer.endCycle, endCyclePre_eq]
+    rw [incEvents, ih _ (by rw [htac]; exact hen), hc, htac, edges_rec _ _ _ hen, codeTick_eq]
+    simp [tickFalls, Spec.Timer.falls]
+
+example : incEvents { Model.Timer.init with tac := 5, counter := 0xfff0 } 8 = 2 := by decide
+
+example : MInv { Model.Timer.init with tac := 5, tima := 0xf0, counter := 0xfff0 } ∧
+    (5 : Nat) / 4 % 2 = 1 ∧ 0xf0 + Spec.Timer.fallingEdges 0xfff0 5 40 < 256 ∧
+    Spec.Timer.fallingEdges 0xfff0 5 40 = 10 := by
+  refine ⟨⟨by decide, by decide, by decide, by decide, by decide, rfl, by decide, by decide⟩,
+    by decide, by decide, by decide⟩
 
 end Tetro.C12
